@@ -1024,8 +1024,36 @@ func g24FirstArgNotNil(c *Ctx) bool {
 			return true
 		}
 		ta, ok := ast.Unparen(as.Rhs[0]).(*ast.TypeAssertExpr)
-		if !ok || ta.Type == nil || !strings.HasSuffix(exprStr(ta.X), ".Args[0]") || exprStr(ta.Type) != "*types.Basic" {
+		if !ok || ta.Type == nil || exprStr(ta.Type) != "*types.Basic" {
 			return true
+		}
+		if !strings.HasSuffix(exprStr(ta.X), ".Args[0]") {
+			// a local that holds the first argument: every assignment to it is <…>.Args[0] (its zero value, nil, is not the
+			// untyped nil type)
+			id, isID := ast.Unparen(ta.X).(*ast.Ident)
+			if !isID {
+				return true
+			}
+			lv := info.Uses[id]
+			okLocal, assigns := lv != nil, 0
+			ast.Inspect(fi.Decl.Body, func(m ast.Node) bool {
+				a2, isAs := m.(*ast.AssignStmt)
+				if !isAs || len(a2.Lhs) != len(a2.Rhs) {
+					return true
+				}
+				for k, l := range a2.Lhs {
+					if lid, isL := l.(*ast.Ident); isL && objOf(info, lid) == lv {
+						assigns++
+						if !strings.HasSuffix(exprStr(a2.Rhs[k]), ".Args[0]") {
+							okLocal = false
+						}
+					}
+				}
+				return true
+			})
+			if !okLocal || assigns == 0 {
+				return true
+			}
 		}
 		if id, ok := as.Lhs[0].(*ast.Ident); ok {
 			if o := objOf(info, id); o != nil {
